@@ -43,6 +43,30 @@ def gen(ctx):
                 ops[0] = "c" + ops[0][1:]          # race on first use
             progs.append(",".join(ops))
         cases.append("%d\t%s\t%s\t%s" % (nt, ",".join(C.hexs(e) for e in exprs), ";".join(docs), "|".join(progs)))
+    # hot-function cases: all threads run the same builtin over the same shared data at the same time, many times (arrays of 20 .. 300 elements
+    # with duplicate keys, so a thread that took a different code path under contention — another sort, a shared scratch buffer — shows)
+    for _ in range(6 if ctx.tier == "quick" else 120):
+        nel = rng.choice([24, 40, 65, 130, 300])
+        rows = "[ " + " ".join("{ s6b u%d s6964 u%d }" % (rng.randrange(0, 4), i) for i in range(nel)) + " ]"
+        nums = "[ " + " ".join("u%d" % rng.randrange(0, 5) for _ in range(nel)) + " ]"
+        strs = "[ " + " ".join(G.enc_str(rng.choice(["a", "b", "é", ""])) for _ in range(nel)) + " ]"
+        exprs = ["sort_by(@, &k)[*].id", "max_by(@, &k).id", "min_by(@, &k).id", "map(&id, @)", "sort(@)", "to_string(@)", "reverse(@)", "join('', @)",
+                 "[*].k | sort(@)", "length(@)", "[?k == `1`].id", "merge(@[0], @[1])", "sort_by(@, &to_string(k))[*].id"]
+        docs = [rows, nums, strs]
+        nt = rng.choice([8, 16])
+        progs = []
+        for t in range(nt):
+            e = rng.randrange(len(exprs)) if rng.random() < 0.3 else 0
+            progs.append(",".join("%s%d:%d" % (rng.choice("ssc"), e if rng.random() < 0.8 else rng.randrange(len(exprs)), rng.randrange(3)) for _ in range(150)))
+        cases.append("%d\t%s\t%s\t%s" % (nt, ",".join(C.hexs(e) for e in exprs), ";".join(docs), "|".join(progs)))
+    # first-use cases: in a fresh process every thread's FIRST action is to compile (through the lazily created default runtime) and run an
+    # expression that calls a builtin — a runtime visible to other threads before its builtins are registered answers "unknown function"
+    for _ in range(150 if ctx.tier == "quick" else 4000):
+        exprs = [rng.choice(["length(@)", "values(@)", "abs(a)", "to_string(@)", "sort_by(@, &a)", "type(@)", "keys(@)", "not_null(a, b)"]) for _ in range(2)]
+        docs = ["{ s61 u1 }", "[ { s61 u2 } { s61 u1 } ]"]
+        nt = 16
+        progs = ["c%d:%d,c%d:%d" % (rng.randrange(2), rng.randrange(2), rng.randrange(2), rng.randrange(2)) for _ in range(4)]
+        cases.append("%d\t%s\t%s\t%s" % (nt, ",".join(C.hexs(e) for e in exprs), ";".join(docs), "|".join(progs)))
     # bulk cases: every thread compiles (through the shared default runtime) and searches thousands of DISTINCT expressions, so that anything
     # shared and size-dependent behind compile (tables that fill up, get evicted or rehashed) is exercised while other threads are inside it
     for _ in range(3 if ctx.tier == "quick" else 60):
@@ -74,7 +98,7 @@ def run(ctx):
     # one process per case: the first compile in each process races on the default runtime
     impl = []
     import concurrent.futures
-    with concurrent.futures.ThreadPoolExecutor(max_workers=4) as ex:
+    with concurrent.futures.ThreadPoolExecutor(max_workers=6) as ex:
         impl = list(ex.map(lambda c: C.run_exec([binpath, "threads"], [c], idle_timeout=60)[0], cases))
     model = C.run_parallel([ctx.driver, "threads"], cases, idle_timeout=60)
     nthreads = {}
